@@ -182,15 +182,21 @@ PROPS["C17"] = {
                   "duplicate-free lists), List (each member once, strictly ascending, independent of map order), PopAny; allocation leaves "
                   "every existing set unchanged, Insert/Delete touch the receiver only; the generated lexicographic less is a strict total "
                   "order. The four checked-in set types are driven through operation sequences and compared with the model and with a "
-                  "reference implementation on sorted slices.",
-    "level_note": "Trusted: Lean kernel, the transcription of setCode (validated by correspondence on the checked-in generated types, "
-                  "and tied to the template by the regenerated-facts check of the template text), sort.Sort's contract, Go map semantics "
-                  "(duplicate-free keys).",
+                  "reference implementation on sorted slices; the real set-gen regenerates a sets package from the current templates on "
+                  "every run (child process), the regenerated builtin sets must equal the checked-in files from the package clause on, "
+                  "and a checker compiled from the regenerated package runs the same histories on them and on a struct-key set.",
+    "level_note": "Trusted: Lean kernel, the transcription of setCode (validated by correspondence on the checked-in generated types and "
+                  "on types regenerated from the current template at run time), sort.Sort's contract, Go map semantics (duplicate-free "
+                  "keys), go build in GOPATH mode for the regenerated package.",
     "rule": "operation sequences (1..8 operations out of 16 kinds incl. the binary ones on arbitrary earlier sets) over element universes of "
             "3..6 values, for the generated Int, Int64, Byte and String sets (negative ints, large int64s, non-ASCII strings); PopAny on "
             "sets with > 1 member is judged by the oracle only (the popped member is the runtime's choice); thorough adds all sequences of "
-            "length <= 4 over a 12-operation alphabet. Non-trivial = at least 3 operations; distinct = distinct history.",
-    "assumptions": ["element values are mapped to model keys by an order-preserving injection"],
+            "length <= 4 over a 12-operation alphabet. 6 (thorough 60) regeneration cases: a generated key package (struct key of 1..3 "
+            "ordered members, some of them members of an embedded struct declared first or last; an untagged struct) is given to the "
+            "real set-gen, then 150..400 histories run on the regenerated K1/Int/Int64/Byte/String sets. Non-trivial = at least 3 "
+            "operations; distinct = distinct history.",
+    "assumptions": ["element values are mapped to model keys by an order-preserving injection",
+                    "struct keys have members of ordered basic types only (the generator emits '<' on every member)"],
 }
 
 PROPS["C09"] = {
